@@ -112,6 +112,10 @@ func loadWorld(repo string, patterns []string) (*World, error) {
 							g.Sort = "Bool"
 							g.Init = "false"
 						}
+						if fs[3] == "array" {
+							g.Sort = "(Array Int Int)"
+							g.Init = "((as const (Array Int Int)) 0)"
+						}
 						if fs[1] == "field" && strings.Count(g.Name, ".") == 1 && !strings.HasPrefix(g.Name, "*.") {
 							g.Name = cf.p.Types.Name() + "." + g.Name
 						}
